@@ -752,7 +752,7 @@ func init() {
 		Assumptions: []string{"methods are mutex-protected, hence atomic steps (checked by the lock model: a Lock of a held mutex ends the path)", "glue mirrors nextTask / worker loop / applyResumeInfo of SendManifestMultiStream (harness header); a reordering of those call sites is outside what this check sees", "bounds per tier below"},
 		Bounds: func(tier string) string {
 			if tier == "thorough" {
-				return "chunks <= 3 with 2 workers and 9 steps (resume), chunks <= 4 with 3 workers and 10/11 steps (plain/resume); chunk size 4, last chunk 1..4 bytes"
+				return "as quick, plus chunks <= 4 with 3 workers and 10 steps without resume; plan closure unit <= 5 chunks; whole sender: two workers with two preemptions, three files with one preemption; chunk size 4, last chunk 1..4 bytes"
 			}
 			return "chunks <= 3, 2 workers, 8 steps without resume; chunks <= 2, 2 workers, 8 steps with resume report/verdict arrival at every step"
 		},
@@ -763,7 +763,7 @@ func init() {
 			}
 			if tier == "thorough" {
 				js = append(js, hj("C17.plain-deep", "H_C17_plain_deep", "4 chunks, 3 workers, 10 steps"))
-				// H_C17_resume_mid (3 chunks, 2 workers, 9 steps; 8 minutes alone) is available through `./check checkjob` but
+				// H_C17_resume_mid (3 chunks, 2 workers, 9 steps; 8 minutes alone) keeps its harness but is
 				// not registered: together with the whole-sender obligations the tier would not finish within 45 minutes
 				// H_C17_resume_deep (4 chunks, 3 workers, 11 steps with report/verdict arrival) does not finish within 15 minutes on 16 cores: not registered
 			}
